@@ -98,6 +98,7 @@ package fsm
 //@   ensures value-events-only: len(trace) >= len(old(trace)) && (forall i int :: {trace[i]} len(old(trace)) <= i && i < len(trace) ==> trace[i].kind == 5 || trace[i].kind == 6)
 //@   ensures rejected: !accepts(s, args, false) ==> result != nil
 //@   ensures nil-only-if-accepted: result == nil ==> accepts(s, args, false)
+//@   ensures no-failed-set: result == nil ==> (forall i int :: len(old(trace)) <= i && i < len(trace) && trace[i].kind == 5 ==> trace[i].b == 1)
 
 // --- graph construction helpers (used by the parser) -----------------------------------------------------------------------
 //@ func NewState
